@@ -17,6 +17,7 @@ import (
 	"perkeep.org/internal/vmodel"
 	"perkeep.org/internal/vrt"
 	"perkeep.org/pkg/blob"
+	"perkeep.org/pkg/blobserver"
 	"perkeep.org/pkg/sorted"
 )
 
@@ -333,6 +334,21 @@ func vCheck(s *storage, br blob.Ref, data []byte, mustExist, mustBeAbsent bool, 
 	vrt.Assert((statN == 1) == (err == nil), what+": stat and fetch agree on presence")
 }
 
+// vStream runs StreamBlobs from the start and returns the streamed refs/contents.
+func vStream(s *storage) ([]blob.Ref, [][]byte, error) {
+	ch := make(chan blobserver.BlobAndToken, 16)
+	err := s.StreamBlobs(context.Background(), ch, "")
+	var refs []blob.Ref
+	var datas [][]byte
+	for bt := range ch {
+		refs = append(refs, bt.Blob.Ref())
+		rc, rerr := bt.Blob.ReadAll(context.Background())
+		vrt.Assert(rerr == nil, "a streamed blob is readable")
+		datas = append(datas, vReadAll(rc, 64))
+	}
+	return refs, datas, err
+}
+
 // vReindex rebuilds an index from the pack files alone (walkPack + reindexOne, overwrite mode).
 func vReindex(npacks int) (*vmodel.KV, error) {
 	kv := &vmodel.KV{}
@@ -365,17 +381,28 @@ var (
 func VK01DiskpackedMap() {
 	vInstall()
 	kv := &vmodel.KV{}
-	s := vOpen(kv, 1<<20)
+	max := int64(1 << 20)
+	if vrt.Choice(2) == 1 {
+		max = 70 // any maxFileSize: here every second append rolls over to a new pack file
+	}
+	s := vOpen(kv, max)
 	d0, d1 := vrt.Bytes(2), vrt.Bytes(vrt.Choice(3)) // second blob: 0..2 bytes (empty blob included)
 	ctx := context.Background()
 	sb, err := s.ReceiveBlob(ctx, vB0, bytes.NewReader(d0))
 	vrt.Assert(err == nil && sb.Size == 2, "receive acknowledges the true size")
 	sb, err = s.ReceiveBlob(ctx, vB1, bytes.NewReader(d1))
 	vrt.Assert(err == nil && int(sb.Size) == len(d1), "receive acknowledges the true size (second blob)")
-	size0 := len(vD.files[0].data)
+	size0 := 0
+	for _, f := range vD.files {
+		size0 += len(f.data)
+	}
 	sb, err = s.ReceiveBlob(ctx, vB0, bytes.NewReader(d0))
 	vrt.Assert(err == nil && sb.Size == 2, "receiving a blob again succeeds")
-	vrt.Assert(len(vD.files[0].data) == size0, "receiving a blob again is a no-op on the pack")
+	size1 := 0
+	for _, f := range vD.files {
+		size1 += len(f.data)
+	}
+	vrt.Assert(size1 == size0, "receiving a blob again is a no-op on the packs")
 	vCheck(s, vB0, d0, true, false, "map")
 	vCheck(s, vB1, d1, true, false, "map")
 	vCheck(s, vB2, nil, false, true, "map (never received)")
@@ -405,8 +432,12 @@ func VK03bAppendCrash() {
 	t := vrt.Choice(full - before + 1)
 	complete := t == full-before
 	rowThere := complete && vrt.Choice(2) == 1
+	// a torn record whose index row nevertheless exists (index on another device, pack file
+	// damaged later): not reachable by a crash under the Sync contract, but exactly the case
+	// ReceiveBlob's duplicate rule promises to repair on re-upload
+	staleRow := !complete && vrt.Choice(2) == 1
 	vD.files[0].data = vD.files[0].data[:before+t]
-	if !rowThere {
+	if !rowThere && !staleRow {
 		kv.Delete(vB1.String())
 	}
 	if complete {
@@ -418,7 +449,18 @@ func VK03bAppendCrash() {
 	vD.handles = nil
 	s2 := vOpen(kv, 1<<20)
 	vCheck(s2, vB0, d0, true, false, "after crash (acknowledged blob)")
-	vCheck(s2, vB1, d1, rowThere, !rowThere, "after crash (in-flight blob)")
+	if !staleRow {
+		vCheck(s2, vB1, d1, rowThere, !rowThere, "after crash (in-flight blob)")
+	}
+	srefs, sdatas, _ := vStream(s2)
+	for i := range srefs {
+		if srefs[i] == vB0 {
+			vrt.Assert(vSame(sdatas[i], d0), "after crash: a streamed blob is complete")
+		} else {
+			vrt.Assert(srefs[i] == vB1 && vSame(sdatas[i], d1), "after crash: a streamed blob is complete")
+		}
+	}
+	vrt.Assert(len(srefs) >= 1 && srefs[0] == vB0, "after crash: streaming still delivers the acknowledged blob")
 	// (ii) the pack files alone rebuild the index to exactly the complete blobs
 	kv2, rerr := vReindex(vPacks())
 	vrt.Assert(rerr == nil, "reindex of a pack with a torn tail succeeds")
@@ -569,6 +611,31 @@ func VK13cAppendFault() {
 	// nothing else is affected, no error persists
 	vCheck(s, vB0, d0, true, false, what+": acknowledged blob")
 	vCheck(s, vB1, d1, err == nil, false, what+": in-flight blob")
+	// streaming works again and shows exactly the acknowledged blobs, intact
+	srefs, sdatas, serr := vStream(s)
+	vrt.Assert(serr == nil, what+": streaming all blobs succeeds after the failed call")
+	// the blob of the failed call may be there (completely) or not; acknowledged ones must be
+	if err == nil {
+		vrt.Assert(len(srefs) == 2, what+": streaming lists exactly the acknowledged blobs")
+	} else {
+		vrt.Assert(len(srefs) == 1 || len(srefs) == 2, what+": streaming lists the acknowledged blob and at most the in-flight one")
+	}
+	for i := range srefs {
+		if srefs[i] == vB0 {
+			vrt.Assert(vSame(sdatas[i], d0), what+": a streamed blob is intact")
+		} else {
+			vrt.Assert(srefs[i] == vB1 && vSame(sdatas[i], d1), what+": a streamed blob is intact")
+		}
+	}
+	// recovery right away (before any later append repairs the tail)
+	kv1, rerr1 := vReindex(vPacks())
+	vrt.Assert(rerr1 == nil, what+": the pack files re-index right after the failed call")
+	_, e01 := kv1.Get(vB0.String())
+	vrt.Assert(e01 == nil, what+": re-index right after the failed call finds the acknowledged blob")
+	if err == nil {
+		_, e11 := kv1.Get(vB1.String())
+		vrt.Assert(e11 == nil, what+": re-index right after finds the newly acknowledged blob")
+	}
 	_, err2 := s.ReceiveBlob(ctx, vB1, bytes.NewReader(d1))
 	vrt.Assert(err2 == nil, what+": a healthy receive afterwards succeeds")
 	vCheck(s, vB1, d1, true, false, what+": after healthy re-receive")
